@@ -503,6 +503,11 @@ class IRGenerator:
                     item.lineno, item.path)
         else:
             if item.annotation_type_ns is not None:
+                if item.annotation_type_ns == env.namespace_name:
+                    # like a type or annotation reference that names its own namespace
+                    raise InvalidSpec(
+                        'Namespace %s is not imported' % quote(item.annotation_type_ns),
+                        item.lineno, item.path)
                 namespace.add_imported_namespace(
                     self.api.ensure_namespace(item.annotation_type_ns),
                     imported_annotation_type=True)
